@@ -342,15 +342,15 @@ def pad(case):
     return out
 
 
-def validate(rep, cases, tag):
+def validate(cases, tag):
+    """returns (verdicts in case order, TLC result)"""
     if not cases:
-        return []
+        return [], None
     os.makedirs(WORKROOT, exist_ok=True)
     path = os.path.join(WORKROOT, tag + '.json')
     with open(path, 'w') as f:
         json.dump([pad(c) for c in cases], f)
     res = tlc.run('TraceTopo', 'TraceTopo.cfg', tag='c11-' + tag, env=dict(VF_TRACE=path), deadlock=False, timeout=800, workers=8)
-    rep.add_tlc(res)
     if res.violated or len(res.emitted) != len(cases):
         raise RuntimeError('TraceTopo: {} verdicts for {} cases (violated={})'.format(len(res.emitted), len(cases), res.violated))
-    return sorted(res.emitted, key=lambda v: v['id'])
+    return sorted(res.emitted, key=lambda v: v['id']), res
